@@ -30,6 +30,18 @@ Proof. vm_compute. reflexivity. Qed.
 Lemma all_dsns_safe_lemma : forallb dsn_ok dsns = true.
 Proof. vm_compute. reflexivity. Qed.
 
+Lemma staging_files_start_empty_lemma : forallb staging_open_ok sites = true.
+Proof. vm_compute. reflexivity. Qed.
+
+(** not vacuous: some OpenFile site of a staging path is judged by its flags, and a site
+    without O_TRUNC is rejected *)
+Example staging_open_sites_exist :
+  (2 <= List.length (filter (fun s => let '(fn, _, op, cls, flags, _) := s in
+                                      is_openfile op && contains "tmp(" cls && negb (flags_readonly flags)) sites))%nat
+  /\ staging_open_ok ("Replica.Restore", "replica.go:1", "OpenFile", "tmp(output)", ["O_CREATE"; "O_RDWR"], "") = false
+  /\ staging_open_ok ("Replica.Restore", "replica.go:1", "Create", "tmp(output)", [], "") = true.
+Proof. vm_compute. repeat split; lia. Qed.
+
 Lemma db_file_readonly_lemma : forallb site_ok sites = true.
 Proof. vm_compute. reflexivity. Qed.
 
